@@ -49,6 +49,40 @@ pub struct LifeOpts {
 }
 
 /// control-flow models + a scripted client that uses every kind of action + optional adversary
+/// backward `next` jump (the README's loop idiom): a counting step `linc` (c := c + 1) is put in front of one of
+/// the top-level steps and a step `ljmp` behind the same or a later one; `ljmp` has the branch `lb` (if c < K)
+/// whose last step `lstep` carries `next: linc`, optionally an else-branch beside it.  Everything between the
+/// two is visited K times.
+pub fn add_loop(m: &mut MWorkflow, rng: &mut vsim::rng::Rng) {
+    let n = m.steps.len();
+    let i = if n == 0 { 0 } else { rng.below(n as u64 + 1) as usize };
+    let j = i + if n > i { rng.below((n - i) as u64 + 1) as usize } else { 0 };
+    let k = 1 + rng.range(1, 3);
+    m.inputs.insert("c".into(), json!(0));
+    let linc = MStep { id: "linc".into(), acts: vec![MAct { id: "linc_a".into(), kind: ActKind::Code("$set(\"c\", c + 1);".into()), ..Default::default() }], ..Default::default() };
+    let mut lsteps = vec![];
+    if rng.below(2) == 0 {
+        lsteps.push(MStep { id: "lpre".into(), acts: vec![MAct { id: "lpre_a".into(), key: "lpre_k".into(), kind: if rng.below(2) == 0 { ActKind::Irq } else { ActKind::Msg }, ..Default::default() }], ..Default::default() });
+    }
+    // the jumping step: usually with an act, sometimes empty, sometimes skipped by its own condition (a skipped
+    // step still takes its `next`)
+    let shape = rng.below(8);
+    let lacts = if shape == 0 { vec![] } else { vec![MAct { id: "lstep_a".into(), key: "loop_mark".into(), kind: ActKind::Msg, ..Default::default() }] };
+    let lcond = if shape == 1 { Some(Cond::Cmp(Expr::Var("c".into()), "<".into(), Expr::Const(0))) } else { None };
+    lsteps.push(MStep { id: "lstep".into(), acts: lacts, cond: lcond, next: Some("linc".into()), ..Default::default() });
+    let mut branches = vec![MBranch { id: "lb".into(), kind: BranchKind::If(Cond::Cmp(Expr::Var("c".into()), "<".into(), Expr::Const(k))), steps: lsteps }];
+    if rng.below(2) == 0 {
+        branches.push(MBranch { id: "lelse".into(), kind: BranchKind::Else, steps: vec![MStep { id: "lelse_s".into(), acts: vec![MAct { id: "lelse_a".into(), key: "loop_left".into(), kind: ActKind::Msg, ..Default::default() }], ..Default::default() }] });
+        if rng.below(2) == 0 {
+            branches.reverse();
+        }
+    }
+    let ljmp = MStep { id: "ljmp".into(), branches, ..Default::default() };
+    m.steps.insert(j, ljmp);
+    m.steps.insert(i, linc);
+}
+
+
 pub fn gen_lifecycle(rng: &mut Rng, o: &LifeOpts) -> Scenario {
     let mut cfg = GenCfg::control();
     cfg.p_branches = *rng.pick(&[300, 500, 700]);
